@@ -267,3 +267,15 @@ Proof.
   - apply real_piece; hyp.
   - apply (text_piece d 12 2 1); hyp.
 Qed.
+
+Lemma format_atomname_spec nm el :
+  (1 <= String.length nm <= 4)%nat -> format_atomname_src nm el = Ok (spec_atomname nm el).
+Proof.
+  intro H. unfold format_atomname_src, spec_atomname.
+  destruct nm as [|c1 [|c2 [|c3 [|c4 [|c5 r]]]]]; cbn [String.length] in H; try lia; clear H.
+  - reflexivity.
+  - cbn [String.length Nat.eqb orb andb]. destruct (String.eqb (String c1 (String c2 "")) el); reflexivity.
+  - cbn [String.length Nat.eqb orb andb char_at substring]. rewrite is_substring_digit.
+    destruct (is_digit c1); reflexivity.
+  - reflexivity.
+Qed.
